@@ -95,6 +95,8 @@ def run_shape(args):
                 if fnmatch.fnmatch(name, k.get('obligation', '*')):
                     try:
                         cs.append((k, _known_expr(k, dict(ctx.symbols, **shape.known_namespace()))))
+                    except NameError:
+                        pass        # the class is phrased over a symbol this shape does not have: not applicable here
                     except Exception as e:  # noqa
                         out['harness_errors'].append(f'known finding {k.get("id")}: bad `when`: {e}')
             return cs
@@ -162,9 +164,19 @@ def run_shape(args):
         missing = need - set(res.outcomes)
         if res.inconclusive is None and missing and not out['known_hits']:
             out['harness_errors'].append(f'reachability: outcome classes never reached: {sorted(missing)}')
-        for nt in res.nonterm:
-            out['harness_errors'].append(f'path budget exhausted (possible non-termination): {nt}') \
-                if not shape.nonterm_is_violation else None
+        for i, nt in enumerate(res.nonterm):
+            if not shape.nonterm_is_violation or nt.get('model') is None:
+                out['harness_errors'].append(f'path budget exhausted (possible non-termination): {nt}')
+                continue
+            # candidate non-termination: replay the model against the real CLI under a time limit
+            rep = concrete_replay(shape, nt['model'], timeout=opts.get('nonterm_timeout', 40))
+            if rep.get('timeout'):
+                v = {'obligation': f'{opts["prop"]}.assembly_terminates', 'model': nt['model'], 'outcome': 'nonterminating',
+                     'path': -1, 'shape_id': shape.sid, 'known': None, 'real_outcome': {'kind': 'timeout'}}
+                v['replay'] = save_replay(opts['prop'], shape, v, 100 + i)
+                out['confirmed'].append(v)
+            else:
+                out['harness_errors'].append(f'symbolic path budget exhausted but the real run terminates: {nt}')
     except Exception as e:  # noqa
         out['harness_errors'].append('worker exception: ' + ''.join(traceback.format_exception(e))[-3000:])
     finally:
@@ -310,7 +322,7 @@ def finish(mod, tier, seed, shapes, results, unexplored, known, wall, extra_erro
     ev = {
         'property_id': prop, 'tier': tier, 'seed': seed, 'level': 'model_checking',
         'coverage': {
-            'states': max(paths, 0), 'transitions': max(decisions, 0),
+            'states': max(paths, 0), 'transitions': max(decisions + obligations, 0), 'branch_decisions': decisions,
             'traces_validated_against_impl': sum(r['validated'] for r in results),
             'cli_runs_validated': sum(r['cli_validated'] for r in results),
             'samples': samples or [{'note': 'no shape completed'}],
@@ -327,7 +339,7 @@ def finish(mod, tier, seed, shapes, results, unexplored, known, wall, extra_erro
             'inconclusive_shapes': inconc[:50],
             'harness_errors': [f'{s}: {e[:300]}' for s, e in herrs[:20]],
             'rule': 'states = symbolic paths explored to their end (each stands for all inputs satisfying its '
-                    'path condition); transitions = solver-decided branch points; every path end discharges the '
+                    'path condition); transitions = solver-decided branch points plus path-end obligations put to the solver; every path end discharges the '
                     'listed obligations with z3 (unsat = holds for all values within bounds)',
             'exhaustive': False,
             'solver': 'z3 ' + _z3_version(),
